@@ -1,3 +1,199 @@
-use crate::run::{Ctx, Ev};
-use crate::world::World;
-pub fn step(_ctx: &Ctx, _w: &World, _ev: &mut Ev) {}
+//! C18 - time-weighted prices stay within the prices actually observed.
+use serde_json::{json, Value};
+
+use crate::obs::pu;
+use crate::run::{Ctx, Ev, PriceRec};
+use crate::types::*;
+use crate::world::{lp, World, KEYS};
+
+fn window_class(i: u64) -> &'static str {
+    if i <= 900 {
+        "le_15min"
+    } else if i <= 3600 {
+        "le_1h"
+    } else {
+        "gt_1h"
+    }
+}
+
+/// min/max of the recorded prices whose validity overlaps [now - interval, now]
+fn bounds(recs: &[(u64, U)], now: u64, interval: u64) -> Option<(U, U, bool)> {
+    if recs.is_empty() {
+        return None;
+    }
+    let base = now.saturating_sub(interval);
+    let mut lo = U::MAX;
+    let mut hi = 0;
+    let mut longer = true;
+    for (j, (t, p)) in recs.iter().enumerate() {
+        let end = recs.get(j + 1).map(|x| x.0).unwrap_or(u64::MAX);
+        if *t > now {
+            continue;
+        }
+        // valid on [t, end); overlaps the window if it is still valid after its start (or is the last record)
+        if end > base || j + 1 == recs.len() {
+            lo = lo.min(*p);
+            hi = hi.max(*p);
+        }
+        if *t <= base {
+            longer = false;
+        }
+    }
+    if lo == U::MAX {
+        return None;
+    }
+    Some((lo, hi, longer))
+}
+
+fn vamm_records(ctx: &Ctx, v: usize) -> Vec<PriceRec> {
+    let mut recs = ctx.model.prices[v].clone();
+    let (a, b) = (&ctx.pre.vamms[v], &ctx.post.vamms[v]);
+    if a.q != b.q || a.b != b.b {
+        let rec = PriceRec { height: ctx.post.height, time: ctx.post.time, price: b.spot, q: b.q, b: b.b };
+        if recs.last().map(|r| r.height) == Some(ctx.post.height) {
+            *recs.last_mut().unwrap() = rec;
+        } else {
+            recs.push(rec);
+        }
+    }
+    recs
+}
+
+pub fn step(ctx: &Ctx, w: &World, ev: &mut Ev) {
+    let now = ctx.post.time;
+    for v in 0..ctx.post.vamms.len() {
+        let vo = &ctx.post.vamms[v];
+        if !vo.ok {
+            continue;
+        }
+        let recs = vamm_records(ctx, v);
+        let series: Vec<(u64, U)> = recs.iter().map(|r| (r.time, r.price)).collect();
+        let distinct = series.iter().map(|x| x.1).collect::<std::collections::BTreeSet<_>>().len();
+        let hist = now.saturating_sub(series[0].0);
+        let tib = if ctx.model.trades_in_block[v].0 == ctx.post.height { ctx.model.trades_in_block[v].1.min(3) } else { 0 };
+        // intervals shorter than, equal to and longer than the history, aligned and misaligned with snapshot times
+        let last_t = series.last().map(|x| x.0).unwrap_or(now);
+        let mut intervals: Vec<u64> = vec![vo.twap_interval, 900, 60, 3600, hist.max(1), hist + 1, hist.saturating_sub(1).max(1), now.saturating_sub(last_t).max(1), now.saturating_sub(last_t) + 1, 86400 * 3];
+        if series.len() >= 3 {
+            intervals.push(now.saturating_sub(series[series.len() - 2].0).max(1));
+        }
+        // rotate which intervals are asked so that the cost per step stays small
+        let pick = [ctx.idx % intervals.len(), (ctx.idx * 7 + 3) % intervals.len(), 0];
+        for pi_ in pick {
+            let i = intervals[pi_];
+            if i == 0 {
+                continue;
+            }
+            let res = w.q(&w.addrs.vamms[v], json!({"twap_price": {"interval": i}}));
+            let tw = match res {
+                Ok(x) => pu(&x),
+                Err(_) => {
+                    ev.count("vamm_twap_query_trapped");
+                    continue;
+                }
+            };
+            let (lo, hi, longer) = match bounds(&series, now, i) {
+                Some(x) => x,
+                None => continue,
+            };
+            let rel = if longer { "longer" } else if i == hist { "equal" } else { "shorter" };
+            ev.eval(distinct >= 2, &("vamm", rel, window_class(i), tib, lo == hi), || {
+                json!({"source": "vamm", "interval": i, "history_seconds": hist, "records": series.len(), "twap": tw.to_string(), "min": lo.to_string(), "max": hi.to_string()})
+            });
+            if tw < lo || tw > hi {
+                ev.violation("vamm_twap_bounds", &format!("{},{},{}", rel, if tw > hi { "above" } else { "below" }, window_class(i)), json!({"interval": i, "twap": tw.to_string(), "min": lo.to_string(), "max": hi.to_string(), "records": series.iter().rev().take(6).map(|x| json!([x.0, x.1.to_string()])).collect::<Vec<_>>(), "now": now}));
+            }
+            if distinct == 1 && tw != vo.spot {
+                ev.violation("vamm_twap_flat", window_class(i), json!({"interval": i, "twap": tw.to_string(), "spot": vo.spot.to_string()}));
+            }
+        }
+        // raw reserve snapshots: strictly increasing heights, newest equals the current reserves after a swap in this block
+        let mut pref = World::contract_prefix(&w.addrs.vamms[v]);
+        pref.extend(lp(b"reserve_snapshot"));
+        let mut last_h = 0u64;
+        let mut newest: Option<Value> = None;
+        let mut n = 0usize;
+        for (k, val) in ctx.post.dump.iter() {
+            if k.starts_with(&pref) && k.len() == pref.len() + 8 {
+                if let Ok(s) = serde_json::from_slice::<Value>(val) {
+                    let h = s["block_height"].as_u64().unwrap_or(0);
+                    if n > 0 && h <= last_h {
+                        ev.violation("snapshot_per_block", "height_not_increasing", json!({"height": h, "previous": last_h}));
+                    }
+                    last_h = h;
+                    newest = Some(s);
+                    n += 1;
+                }
+            }
+        }
+        let (a, b) = (&ctx.pre.vamms[v], &ctx.post.vamms[v]);
+        if a.q != b.q || a.b != b.b {
+            if let Some(s) = newest {
+                ev.eval(tib >= 1, &("snapshot", tib), || json!({"source": "snapshot", "entries": n, "trades_in_block": tib}));
+                if pu(&s["quote_asset_reserve"]) != b.q || pu(&s["base_asset_reserve"]) != b.b || s["block_height"].as_u64() != Some(ctx.post.height) {
+                    ev.violation("snapshot_per_block", "newest_ne_final_reserves", json!({"snapshot": s, "q": b.q.to_string(), "b": b.b.to_string(), "height": ctx.post.height}));
+                }
+            }
+        }
+    }
+    // price feed (the repository's own)
+    if w.cfg.oracle == OracleKind::Real {
+        for (k, subs) in ctx.model.feed.iter().enumerate() {
+            let mut series: Vec<(u64, U)> = subs.clone();
+            // the submission of this very step
+            match &ctx.step.op {
+                Op::AppendPrice { vamm, price, timestamp } if *vamm == k && ctx.out.ok => series.push((*timestamp, *price)),
+                Op::AppendMulti { vamm, prices, timestamps } if *vamm == k && ctx.out.ok => {
+                    for (p, t) in prices.iter().zip(timestamps.iter()) {
+                        series.push((*t, p.parse().unwrap_or(0)));
+                    }
+                }
+                _ => {}
+            }
+            if series.is_empty() {
+                continue;
+            }
+            let key = KEYS[k.min(2)];
+            let pf = &w.addrs.pricefeed;
+            let count = series.len();
+            let distinct = series.iter().map(|x| x.1).collect::<std::collections::BTreeSet<_>>().len();
+            if let Ok(x) = w.q(pf, json!({"get_price": {"key": key}})) {
+                let got = pu(&x["price"]);
+                ev.eval(distinct >= 2, &("feed_latest", count.min(4)), || json!({"source": "feed", "query": "latest", "got": got.to_string()}));
+                if got != series[count - 1].1 {
+                    ev.violation("feed_latest", "mismatch", json!({"got": got.to_string(), "last_submission": series[count - 1].1.to_string()}));
+                }
+            }
+            let nb = (ctx.idx % count) as u128;
+            if let Ok(x) = w.q(pf, json!({"get_previous_price": {"key": key, "num_round_back": nb.to_string()}})) {
+                let got = pu(&x["price"]);
+                let exp = series[count - 1 - nb as usize].1;
+                ev.eval(distinct >= 2, &("feed_previous", nb.min(3) as u64), || json!({"source": "feed", "query": "previous", "n": nb.to_string(), "got": got.to_string()}));
+                if got != exp {
+                    ev.violation("feed_previous", if nb == 0 { "n0" } else { "n_gt_0" }, json!({"n": nb.to_string(), "got": got.to_string(), "expected": exp.to_string()}));
+                }
+            }
+            let first_t = series[0].0;
+            let last_t = series[count - 1].0;
+            let hist = now.saturating_sub(first_t);
+            let ivs = [900u64, 60, 3600, hist.max(1), hist + 1, now.saturating_sub(last_t).max(1), now.saturating_sub(last_t) + 1, 86400];
+            for j in [ctx.idx % ivs.len(), (ctx.idx * 5 + 1) % ivs.len()] {
+                let i = ivs[j];
+                let tw = match w.q(pf, json!({"get_twap_price": {"key": key, "interval": i}})) {
+                    Ok(x) => pu(&x),
+                    Err(_) => {
+                        ev.count("feed_twap_query_trapped_or_refused");
+                        continue;
+                    }
+                };
+                if let Some((lo, hi, longer)) = bounds(&series, now, i) {
+                    let rel = if longer { "longer" } else { "shorter" };
+                    ev.eval(distinct >= 2, &("feed", rel, window_class(i), lo == hi), || json!({"source": "feed", "interval": i, "twap": tw.to_string(), "min": lo.to_string(), "max": hi.to_string(), "submissions": count}));
+                    if tw < lo || tw > hi {
+                        ev.violation("feed_twap_bounds", &format!("{},{},{}", rel, if tw > hi { "above" } else { "below" }, window_class(i)), json!({"interval": i, "twap": tw.to_string(), "min": lo.to_string(), "max": hi.to_string(), "submissions": series.iter().rev().take(6).map(|x| json!([x.0, x.1.to_string()])).collect::<Vec<_>>(), "now": now}));
+                    }
+                }
+            }
+        }
+    }
+}
